@@ -141,6 +141,9 @@ func runC09(p *eng.Prog, r *eng.Report, tier string) {
 	r.Note("bare assertions in scope: %d, explicit panics in scope: %d", nAssert, nPanic)
 	chanRules(c, "C09.4", servefns, servewhy)
 	goroutineEndsItsTracking(c, "C09.24")
+	// C09.26 a handler that waits for a correlated reply on the serve goroutine
+	// blocks Serve for ever (= C06.9)
+	serveWait(c, "C09.26")
 	resultUsedBeforeErrorTest(c, "C09.25", fns)
 	// C09.18 (= C06.6) every response is released exactly once: an unreleased
 	// response wedges the serve loop, a second release panics
